@@ -2,6 +2,8 @@ import Heathcliff.Proofs.C08A
 import Heathcliff.Proofs.C08B
 import Heathcliff.Proofs.C08C
 import Heathcliff.Proofs.GenWord
+import Heathcliff.Proofs.GenWord2
+import Heathcliff.Proofs.GenWord3
 
 /- Property theorems only (statements verbatim; proofs are the helper lemmas of Heathcliff/Proofs). -/
 namespace HC.C08
@@ -222,6 +224,23 @@ theorem gen_try_invert_u64_mod_u64_eq (v m r0 : Nat) (hv : v < 2^63) (hm2 : 2 â‰
     GenW.try_invert_u64_mod_u64 v m r0 =
       (tryInvert v m >>= fun o => pure (match o with | none => (r0, false) | some r => (r, true))) := HC.gw_try_invert_u64_mod_u64_eq v m r0 hv hm2 hm
 --GEN-STRETCH
+
+/-! ### translator tie, phase 2: `MultiplyU64ModOperand::new` / `set_quotient` / `divide_u128_u64_inplace` (Proofs/GenWord2.lean) -/
+theorem gen_divide_u128_u64_inplace_eq (n0 n1 d : Nat) (h0 : n0 < 2^64) (h1 : n1 < 2^64) :
+    GenW.divide_u128_u64_inplace n0 n1 d =
+      if d = 0 then .error .other
+      else .ok (((n1 <<< 64 ||| n0) % d) % B64, 0, ((n1 <<< 64 ||| n0) / d) % B64, ((n1 <<< 64 ||| n0) / d) / B64) :=
+  HC.gx_divide_u128_u64_inplace_eq n0 n1 d h0 h1
+theorem gen_mulop_new_eq (y : Nat) (m : Modulus) (hy : y < 2^64) : GenW.mulop_new y m = MulOperand.new y m := HC.gx_mulop_new_eq y m hy
+theorem gen_mulop_set_quotient_eq (s : MulOperand) (m : Modulus) (hy : s.operand < 2^64) :
+    GenW.mulop_set_quotient s m = MulOperand.new s.operand m := HC.gx_mulop_set_quotient_eq s m hy
+
+/-! ### translator tie, phase 2: multi-word loops writing through `&mut [u64]` (Proofs/GenWord3.lean); the slice `result` is an input list
+     (only its length matters) and the first component of the result -/
+theorem gen_add_uint_eq (a b r : List Nat) : GenW.add_uint a b r = addUint a b r.length := HC.gx_add_uint_eq a b r
+theorem gen_sub_uint_eq (a b r : List Nat) : GenW.sub_uint a b r = subUint a b r.length := HC.gx_sub_uint_eq a b r
+theorem gen_add_uint_u64_eq (a : List Nat) (w : Nat) (r : List Nat) : GenW.add_uint_u64 a w r = addUintU64 a w r.length := HC.gx_add_uint_u64_eq a w r
+theorem gen_sub_uint_u64_eq (a : List Nat) (w : Nat) (r : List Nat) : GenW.sub_uint_u64 a w r = subUintU64 a w r.length := HC.gx_sub_uint_u64_eq a w r
 
 /-- non-vacuity: a 61-bit modulus is well formed and the premises of the theorems are satisfiable -/
 example : âˆƒ m, Modulus.mk? 2305843009213693951 = .ok m âˆ§ m.WF :=
